@@ -28,9 +28,13 @@ TwinFindingOf(tag, tx, Sc, Sn, ec, en, Tc, Tn) ==
   LET t == tx.s
   IN IF tx.c = "engine" /\ tx.m = "close_position" /\ tag = "C13.balances" /\ ec.res.ok /\ en.res.ok
         /\ SameMarket(Tc, Tn)
+        \* the vault pays the fees whatever was attached: the twins differ by exactly the part of the fees the
+        \* native caller did not attach (all of them, or - a wallet smaller than the gross amount the cw20 twin
+        \* pulled after paying out - the shortfall), moved from the vault to the trader
         /\ LET fees == Sent(ec, t, "ifund") + Sent(ec, t, "fpool")
-           IN fees > 0 /\ Delta(Sn, Tn, t) = Delta(Sc, Tc, t) + fees
-              /\ Delta(Sn, Tn, "engine") = Delta(Sc, Tc, "engine") - fees
+               d    == fees - en.tx.funds
+           IN fees > 0 /\ d > 0 /\ Delta(Sn, Tn, t) = Delta(Sc, Tc, t) + d
+              /\ Delta(Sn, Tn, "engine") = Delta(Sc, Tc, "engine") - d
               /\ \A a \in Parties \ {t, "engine"} : Delta(Sc, Tc, a) = Delta(Sn, Tn, a)
      THEN "F11"
      ELSE IF tx.c = "engine" /\ tx.m = "close_position" /\ ec.res.ok /\ ~en.res.ok
